@@ -64,6 +64,19 @@ func (p *Pool) UnknownField(t *rapid.T, allowZeroLen bool) TField {
 				id = ids[rapid.IntRange(0, len(ids)-1).Draw(t, "aliasid")]
 			}
 		}
+		if (ent == 29305 || ent == 56506) && rapid.IntRange(0, 2).Draw(t, "ianaid") == 0 {
+			// a registered enterprise with the id of an IANA element it has no counterpart for (the
+			// reverse registry, 29305, only mirrors the reversible IANA elements)
+			var ids []uint16
+			for _, f := range p.Known {
+				if f.Ent == 0 && !p.IsKnown(ent, f.ID) {
+					ids = append(ids, f.ID)
+				}
+			}
+			if len(ids) > 0 {
+				id = ids[rapid.IntRange(0, len(ids)-1).Draw(t, "ianaidx")]
+			}
+		}
 		if p.IsKnown(ent, id) {
 			continue
 		}
